@@ -307,3 +307,535 @@ Proof.
   rewrite Hv. destruct doc; [contradiction|]. cbn [List.length Nat.eqb orb].
   apply build_from_entities_reading; assumption.
 Qed.
+
+(** * 2. The flush order: shortest periods first *)
+
+(* [a] is strictly shorter than [b]: lighter unit (gen/Tables.v: unit_weight), or same weight
+   and smaller size *)
+Definition shorter (a b : period) : Prop :=
+  unit_weight (p_unit a) < unit_weight (p_unit b)
+  \/ (unit_weight (p_unit a) = unit_weight (p_unit b) /\ p_size a < p_size b).
+
+Lemma period_key_leb_spec a b : period_key_leb a b = true <-> ~ shorter b a.
+Proof.
+  unfold period_key_leb, shorter.
+  rewrite orb_true_iff, andb_true_iff, Z.ltb_lt, Z.eqb_eq, Z.leb_le. lia.
+Qed.
+
+Lemma period_key_leb_total a b : period_key_leb a b = false -> period_key_leb b a = true.
+Proof.
+  intros H. apply period_key_leb_spec. intros S.
+  assert (period_key_leb a b = true) as H'; [|congruence].
+  apply period_key_leb_spec. unfold shorter in *. lia.
+Qed.
+
+Lemma period_key_leb_trans a b c :
+  period_key_leb a b = true -> period_key_leb b c = true -> period_key_leb a c = true.
+Proof. rewrite !period_key_leb_spec. unfold shorter. lia. Qed.
+
+Section Sorting.
+  Context {A : Type}.
+  Let R (a b : period * A) : Prop := period_key_leb (fst a) (fst b) = true.
+
+  Lemma insert_sorted_perm (pa : period * A) l : Permutation (insert_sorted pa l) (pa :: l).
+  Proof.
+    induction l as [|qb l IH]; cbn [insert_sorted]; [reflexivity|].
+    destruct (period_key_leb (fst qb) (fst pa)); [|reflexivity].
+    rewrite IH. apply perm_swap.
+  Qed.
+
+  Lemma insert_sorted_sorted (pa : period * A) l :
+    StronglySorted R l -> StronglySorted R (insert_sorted pa l).
+  Proof.
+    induction l as [|qb l IH]; intros S; cbn [insert_sorted].
+    - constructor; constructor.
+    - inversion S as [|? ? S' F]; subst.
+      destruct (period_key_leb (fst qb) (fst pa)) eqn:E.
+      + constructor; [apply IH; assumption|].
+        eapply Permutation_Forall; [symmetry; apply insert_sorted_perm|].
+        constructor; assumption.
+      + constructor; [assumption|]. constructor.
+        * apply period_key_leb_total; assumption.
+        * eapply Forall_impl; [|exact F]. intros c Hc. unfold R in *.
+          eapply period_key_leb_trans; [apply period_key_leb_total; eassumption|assumption].
+  Qed.
+
+  Lemma sort_fold_perm (l acc : list (period * A)) :
+    Permutation (fold_left (fun acc pa => insert_sorted pa acc) l acc) (l ++ acc).
+  Proof.
+    revert acc. induction l as [|pa l IH]; intros acc; cbn [fold_left app]; [reflexivity|].
+    rewrite IH, insert_sorted_perm. symmetry. apply Permutation_middle.
+  Qed.
+
+  Lemma sort_fold_sorted (l acc : list (period * A)) :
+    StronglySorted R acc ->
+    StronglySorted R (fold_left (fun acc pa => insert_sorted pa acc) l acc).
+  Proof.
+    revert acc. induction l as [|pa l IH]; intros acc S; cbn [fold_left]; [assumption|].
+    apply IH, insert_sorted_sorted, S.
+  Qed.
+
+  Lemma sort_periods_perm (l : list (period * A)) : Permutation (sort_periods l) l.
+  Proof. unfold sort_periods. rewrite sort_fold_perm, app_nil_r. reflexivity. Qed.
+
+  Lemma sort_periods_sorted (l : list (period * A)) :
+    StronglySorted (fun a b => ~ shorter (fst b) (fst a)) (sort_periods l).
+  Proof.
+    assert (StronglySorted R (sort_periods l)) as S
+      by (apply sort_fold_sorted; constructor).
+    induction S as [|a l' S IH F]; constructor; [assumption|].
+    eapply Forall_impl; [|exact F]. intros b Hb. apply period_key_leb_spec, Hb.
+  Qed.
+End Sorting.
+
+(* the flush sets the inputs one after the other, in the order of the list *)
+Lemma flush_periods_app v count l1 : forall h l2,
+  flush_periods v count h (l1 ++ l2)
+  = bind (flush_periods v count h l1) (fun h' => flush_periods v count h' l2).
+Proof.
+  induction l1 as [|[p values] l1 IH]; intros h l2; cbn [flush_periods app]; [reflexivity|].
+  destruct (Nat.eqb (List.length values) 0); [reflexivity|].
+  destruct (set_input_unless_ended v count h p _); cbn [bind]; [apply IH|reflexivity].
+Qed.
+
+Lemma set_dated_app x s count vn l1 : forall hs l2,
+  set_dated x s count hs vn (l1 ++ l2)
+  = bind (set_dated x s count hs vn l1) (fun hs' => set_dated x s count hs' vn l2).
+Proof.
+  induction l1 as [|[p [t value]] l1 IH]; intros hs l2; cbn [set_dated app]; [reflexivity|].
+  destruct (sim_set_input x s count hs vn t value); cbn [bind]; [apply IH|reflexivity].
+Qed.
+
+(** Whenever the flush sets an input [b] after an input [a], [b] is not strictly shorter than
+    [a]: the list that [flush_periods] walks is split as [l1 ++ a :: l2 ++ b :: l3]. *)
+Lemma flush_order {A} (entries : list (period * A)) l1 a l2 b l3 :
+  sort_periods entries = l1 ++ a :: l2 ++ b :: l3 -> ~ shorter (fst b) (fst a).
+Proof.
+  intros E. pose proof (sort_periods_sorted entries) as S. rewrite E in S.
+  clear E. induction l1 as [|c l1 IH]; cbn [app] in S.
+  - inversion S as [|? ? _ F]; subst. rewrite Forall_forall in F. apply F.
+    apply in_or_app. right. left. reflexivity.
+  - inversion S; subst. apply IH. assumption.
+Qed.
+
+(** * 3. Ill-formed items are refused with the situation error *)
+
+Lemma mem_str_In s l : mem_str s l = true <-> In s l.
+Proof.
+  unfold mem_str. rewrite existsb_exists. split.
+  - intros (y & Hy & E). apply String.eqb_eq in E. subst. assumption.
+  - intros H. exists s. split; [assumption|apply String.eqb_refl].
+Qed.
+
+Lemma mem_str_false s l : mem_str s l = false <-> ~ In s l.
+Proof.
+  rewrite <- mem_str_In. destruct (mem_str s l); split; intros H;
+    try reflexivity; try discriminate; try (intros Q; discriminate);
+    try (exfalso; apply H; reflexivity).
+Qed.
+
+Lemma aremove_keys {A} a k (l : list (string * A)) :
+  In k (map fst l) -> k <> a -> In k (map fst (aremove a l)).
+Proof.
+  induction l as [|[k' v] l IH]; cbn [aremove map fst In]; [tauto|].
+  intros [E|H] N.
+  - subst k'. destruct (String.eqb k a) eqn:Q; [apply String.eqb_eq in Q; contradiction|].
+    left. reflexivity.
+  - destruct (String.eqb k' a); [apply IH; assumption|]. right. apply IH; assumption.
+Qed.
+
+Lemma aset_keys {A} k k' (v : A) l : In k (map fst l) -> In k (map fst (aset k' v l)).
+Proof.
+  induction l as [|[k0 w] l IH]; cbn [aset map fst In]; [tauto|].
+  intros [E|H]; destruct (String.eqb k0 k'); cbn [map fst In]; auto.
+Qed.
+
+(** ** unknown entity *)
+
+Lemma unknown_entity_entities x s doc k :
+  In k (map fst doc) -> k <> "axes"%string -> ~ In k (plurals s) ->
+  build_from_entities x s doc = Err ESituation.
+Proof.
+  intros Hin Hax Hpl. unfold build_from_entities.
+  assert (existsb (fun kv : string * json => negb (mem_str (fst kv) (plurals s)))
+                  (aremove "axes" doc) = true) as ->; [|reflexivity].
+  apply existsb_exists.
+  pose proof (aremove_keys "axes"%string k doc Hin Hax) as H.
+  apply in_map_iff in H. destruct H as (kv & E & H). exists kv. split; [assumption|].
+  rewrite E. apply negb_true_iff, mem_str_false. assumption.
+Qed.
+
+Lemma explicit_singular_keeps s doc k :
+  In k (map fst doc) -> ~ In k (singulars s) ->
+  In k (map fst (explicit_singular_entities s doc)).
+Proof.
+  intros Hin Hs. unfold explicit_singular_entities.
+  assert (In k (map fst (filter (fun kv : string * json => negb (mem_str (fst kv) (singulars s))) doc)))
+    as H0.
+  { apply in_map_iff in Hin. destruct Hin as (kv & E & H). apply in_map_iff. exists kv.
+    split; [assumption|]. apply filter_In. split; [assumption|].
+    rewrite E. apply negb_true_iff, mem_str_false. assumption. }
+  revert H0. generalize (filter (fun kv : string * json => negb (mem_str (fst kv) (singulars s))) doc).
+  induction (entities s) as [|e es IH]; intros acc H0; cbn [fold_left]; [assumption|].
+  apply IH. destruct (aget (e_key e) doc); [apply aset_keys|]; assumption.
+Qed.
+
+(** A top-level key that names neither an entity (plural or singular) nor the axes: refused,
+    whenever the document is read as an entity description (a singular entity key is present,
+    or no key is the name of a variable). *)
+Lemma unknown_entity_rejected x s doc k :
+  In k (map fst doc) -> k <> "axes"%string -> ~ In k (plurals s) -> ~ In k (singulars s) ->
+  (existsb (fun k => mem_str k (singulars s)) (map fst doc) = true
+   \/ existsb (fun k => match find_var k (s_vars s) with Some _ => true | None => false end)
+              (map fst doc) = false) ->
+  build_from_dict x s (JObj doc) = Err ESituation.
+Proof.
+  intros Hin Hax Hpl Hsg Hshape. unfold build_from_dict.
+  destruct (existsb (fun k => mem_str k (singulars s)) (map fst doc)) eqn:Es.
+  - eapply unknown_entity_entities; [apply explicit_singular_keeps; eassumption|assumption|assumption].
+  - destruct Hshape as [H|Hv]; [discriminate|].
+    assert (forallb (fun k0 : string => (k0 =? "axes")%string || mem_str k0 (plurals s)) (map fst doc)
+            = false) as ->.
+    { apply not_true_iff_false. intros F. rewrite forallb_forall in F. specialize (F k Hin).
+      apply orb_true_iff in F. destruct F as [F|F].
+      - apply String.eqb_eq in F. contradiction.
+      - apply mem_str_In in F. contradiction. }
+    rewrite andb_false_r, Hv. destruct doc as [|kv doc]; [destruct Hin|].
+    cbn [List.length Nat.eqb orb].
+    eapply unknown_entity_entities; eassumption.
+Qed.
+
+(** ** values, variables and period keys inside one instance *)
+
+Lemma add_dated_app x e v idx l1 : forall st l2,
+  add_dated x st e v idx (l1 ++ l2)
+  = bind (add_dated x st e v idx l1) (fun st' => add_dated x st' e v idx l2).
+Proof.
+  induction l1 as [|[t value] l1 IH]; intros st l2; cbn [add_dated app]; [reflexivity|].
+  destruct (parse_key (tok x t)); [|reflexivity].
+  destruct (add_variable_value x st e v idx t value); cbn [bind]; [apply IH|reflexivity].
+Qed.
+
+Lemma init_variable_values_app x s e id l1 : forall st l2,
+  init_variable_values x s st e (l1 ++ l2) id
+  = bind (init_variable_values x s st e l1 id) (fun st' => init_variable_values x s st' e l2 id).
+Proof.
+  induction l1 as [|[vn vals] l1 IH]; intros st l2; cbn [init_variable_values app]; [reflexivity|].
+  destruct (find_var vn (s_vars s)); [|reflexivity].
+  destruct (negb (String.eqb (v_entity v) (e_key e))); [reflexivity|].
+  destruct (index_of id (get_ids st (e_plural e))); [|reflexivity].
+  destruct vals; try reflexivity.
+  destruct (add_dated x st e v n l); cbn [bind]; [apply IH|reflexivity].
+Qed.
+
+Lemma add_person_instances_app x s l1 : forall st l2,
+  add_person_instances x s st (l1 ++ l2)
+  = bind (add_person_instances x s st l1) (fun st' => add_person_instances x s st' l2).
+Proof.
+  induction l1 as [|[pid j] l1 IH]; intros st l2; cbn [add_person_instances app]; [reflexivity|].
+  destruct j; try reflexivity.
+  destruct (init_variable_values x s st (s_person s) l pid); cbn [bind]; [apply IH|reflexivity].
+Qed.
+
+(* a declaration that the builder refuses at once, whatever was read before *)
+Definition refused_field (x : ext) (s : sys) (e : entity) (f : string * json) : Prop :=
+  forall st id rest,
+    index_of id (get_ids st (e_plural e)) <> None ->
+    init_variable_values x s st e (f :: rest) id = Err ESituation.
+
+Lemma unknown_variable_refused x s e vn vals :
+  find_var vn (s_vars s) = None -> refused_field x s e (vn, vals).
+Proof. intros H st id rest _. cbn [init_variable_values]. rewrite H. reflexivity. Qed.
+
+Lemma other_entity_variable_refused x s e vn vals v :
+  find_var vn (s_vars s) = Some v -> v_entity v <> e_key e -> refused_field x s e (vn, vals).
+Proof.
+  intros H N st id rest _. cbn [init_variable_values]. rewrite H.
+  destruct (String.eqb (v_entity v) (e_key e)) eqn:Q; [apply String.eqb_eq in Q; contradiction|].
+  reflexivity.
+Qed.
+
+Lemma undated_value_refused x s e vn vals :
+  (forall l, vals <> JObj l) -> refused_field x s e (vn, vals).
+Proof.
+  intros N st id rest Hid. cbn [init_variable_values].
+  destruct (find_var vn (s_vars s)); [|reflexivity].
+  destruct (negb _); [reflexivity|].
+  destruct (index_of id _); [|contradiction].
+  destruct vals; try reflexivity. exfalso. eapply N. reflexivity.
+Qed.
+
+(* a (key, value) pair that the builder refuses at once *)
+Definition refused_entry (x : ext) (v : variable) (tv : string * json) : Prop :=
+  forall st e idx rest, add_dated x st e v idx (tv :: rest) = Err ESituation.
+
+Lemma unparsable_period_refused x v t value k :
+  parse_key (tok x t) = Err k -> refused_entry x v (t, value).
+Proof. intros H st e idx rest. cbn [add_dated]. rewrite H. reflexivity. Qed.
+
+Lemma bad_value_refused x v t value p :
+  value <> JNull -> canon_key (tok x t) = Ok p -> check_set_value x v value = Err EValue ->
+  refused_entry x v (t, value).
+Proof.
+  intros Hn Hk Hc st e idx rest. cbn [add_dated].
+  unfold canon_key in Hk. destruct (parse_key (tok x t)) eqn:E; [|discriminate].
+  assert (add_variable_value x st e v idx t value = Err ESituation) as ->; [|reflexivity].
+  unfold add_variable_value. destruct value; try contradiction;
+    unfold canon_key; rewrite E; cbn [bind]; cbn [bind] in Hk; rewrite Hk; cbn [bind];
+    rewrite Hc; reflexivity.
+Qed.
+
+Lemma text_for_number_value x v s :
+  (v_type v = TInt \/ v_type v = TFloat) -> evalx x s = None ->
+  check_set_value x v (JStr s) = Err EValue.
+Proof. intros [T|T] H; unfold check_set_value; rewrite T, H; reflexivity. Qed.
+
+Lemma unknown_enum_value x v s :
+  v_type v = TEnum -> ~ In s (v_enum v) -> check_set_value x v (JStr s) = Err EValue.
+Proof.
+  intros T H. unfold check_set_value. rewrite T.
+  assert (index_of s (v_enum v) = None) as ->; [|reflexivity].
+  induction (v_enum v) as [|a l IH]; cbn [index_of]; [reflexivity|].
+  destruct (String.eqb a s) eqn:Q.
+  - apply String.eqb_eq in Q. subst. exfalso. apply H. left. reflexivity.
+  - rewrite IH; [reflexivity|]. intros I. apply H. right. assumption.
+Qed.
+
+Lemma impossible_date_value x v s y m d :
+  v_type v = TDate -> tok x s = KPlain (SYMD y m d) -> validb (y, m, d) = false ->
+  check_set_value x v (JStr s) = Err EValue.
+Proof.
+  intros T K V. unfold check_set_value. rewrite T. unfold date_of_text. rewrite K.
+  cbn [parse_start]. rewrite V. reflexivity.
+Qed.
+
+Lemma not_a_date_value x v s :
+  v_type v = TDate -> (forall k, tok x s <> KPlain k) -> check_set_value x v (JStr s) = Err EValue.
+Proof.
+  intros T K. unfold check_set_value. rewrite T. unfold date_of_text.
+  destruct (tok x s) eqn:E; try reflexivity. exfalso. eapply K. reflexivity.
+Qed.
+
+(* an entry refused inside a dated object makes the whole declaration refused, once the
+   entries before it have been accepted *)
+Lemma refused_entry_in_field x s e vn v pre tv post st id rest idx st' :
+  find_var vn (s_vars s) = Some v -> v_entity v = e_key e ->
+  index_of id (get_ids st (e_plural e)) = Some idx ->
+  add_dated x st e v idx pre = Ok st' ->
+  refused_entry x v tv ->
+  init_variable_values x s st e ((vn, JObj (pre ++ tv :: post)) :: rest) id = Err ESituation.
+Proof.
+  intros Hv He Hi Hpre Hr. cbn [init_variable_values]. rewrite Hv, He, String.eqb_refl, Hi.
+  cbn [negb]. rewrite add_dated_app, Hpre. cbn [bind]. rewrite Hr. reflexivity.
+Qed.
+
+(** the first refused declaration of a person makes the whole build fail with the situation
+    error: [pre_i] are the persons read before, [pre] the declarations of that person read
+    before, all accepted *)
+Lemma person_declaration_rejected x s doc persons pre_i pid pre bad post post_i st1 st2 :
+  existsb (fun kv : string * json => negb (mem_str (fst kv) (plurals s))) (aremove "axes" doc) = false ->
+  aget (e_plural (s_person s)) (aremove "axes" doc) = Some (JObj persons) ->
+  persons = pre_i ++ (pid, JObj (pre ++ bad :: post)) :: post_i ->
+  add_person_instances x s (set_ids b_empty (e_plural (s_person s)) (map fst persons)) pre_i = Ok st1 ->
+  init_variable_values x s st1 (s_person s) pre pid = Ok st2 ->
+  index_of pid (get_ids st2 (e_plural (s_person s))) <> None ->
+  (forall st id rest, index_of id (get_ids st (e_plural (s_person s))) <> None ->
+                      init_variable_values x s st (s_person s) (bad :: rest) id = Err ESituation) ->
+  build_from_entities x s doc = Err ESituation.
+Proof.
+  intros Hent Hp E H1 H2 Hid Hbad. unfold build_from_entities. rewrite Hent, Hp.
+  assert (add_person_entity x s b_empty persons = Err ESituation) as Hpe.
+  { unfold add_person_entity. rewrite E at 2.
+    rewrite add_person_instances_app, H1. cbn [bind add_person_instances].
+    rewrite init_variable_values_app, H2. cbn [bind].
+    rewrite Hbad; [reflexivity|assumption]. }
+  destruct persons as [|i instances]; [destruct pre_i; discriminate|].
+  rewrite Hpe. reflexivity.
+Qed.
+
+(** ** mismatched period *)
+
+Lemma holder_set_input_mismatch v n h P a :
+  eternal v = false ->
+  (p_unit P = Eternity
+   \/ (v_rule v = RNone /\ List.length a = n /\ (p_unit P <> v_def v \/ 1 < p_size P))) ->
+  holder_set_input v n h P a = Err EMismatch.
+Proof.
+  intros Hv [HE|(Hr & Hl & Hm)]; unfold holder_set_input; rewrite Hv; cbn [negb].
+  - rewrite HE. reflexivity.
+  - destruct (unit_eqb (p_unit P) Eternity); [reflexivity|]. cbn [andb]. rewrite Hr.
+    unfold holder_set, check_len. rewrite Hl, Nat.eqb_refl. cbn [bind]. rewrite Hv.
+    destruct Hm as [Hu|Hs].
+    + assert (unit_eqb (v_def v) (p_unit P) = false) as ->; [|reflexivity].
+      destruct (v_def v), (p_unit P); try reflexivity; exfalso; apply Hu; reflexivity.
+    + assert (1 <? p_size P = true) as -> by (apply Z.ltb_lt; assumption).
+      rewrite orb_true_r. reflexivity.
+Qed.
+
+(* the period mismatch met while the buffer of a population is flushed becomes the situation
+   error; the variables flushed before ([pre]) were accepted *)
+Lemma flush_buffer_mismatch s e count pre vn entries post hs hs' v :
+  flush_buffer s e count pre hs = Ok hs' ->
+  find_var vn (s_vars s) = Some v -> v_entity v = e_key e ->
+  flush_periods v count (match aget vn hs' with Some h => h | None => [] end) (sort_periods entries)
+  = Err EMismatch ->
+  flush_buffer s e count (pre ++ (vn, entries) :: post) hs = Err ESituation.
+Proof.
+  revert hs. induction pre as [|[vn0 en0] pre IH]; intros hs Hpre Hv He Hf; cbn [app flush_buffer].
+  - cbn [flush_buffer] in Hpre. inversion Hpre; subst hs'.
+    rewrite Hv, He, String.eqb_refl. cbn [negb]. rewrite Hf. reflexivity.
+  - cbn [flush_buffer] in Hpre.
+    destruct (find_var vn0 (s_vars s)) as [v0|]; [|apply IH; assumption].
+    destruct (negb (String.eqb (v_entity v0) (e_key e))); [apply IH; assumption|].
+    destruct (flush_periods v0 count _ (sort_periods en0)) as [h|k]; [apply IH; assumption|].
+    destruct k; discriminate.
+Qed.
+
+(** ** persons in groups *)
+
+Lemma allocate_list_err pids l : forall todo e,
+  allocate_list pids todo l = Err e -> e = ESituation.
+Proof.
+  induction l as [|j l IH]; intros todo e; cbn [allocate_list]; [discriminate|].
+  destruct j; try (intros H; inversion H; reflexivity).
+  destruct (negb (mem_str s pids)); [intros H; inversion H; reflexivity|].
+  destruct (negb (mem_str s todo)); [intros H; inversion H; reflexivity|].
+  apply IH.
+Qed.
+
+Lemma allocate_roles_err pids rj : forall todo e,
+  allocate_roles pids todo rj = Err e -> e = ESituation.
+Proof.
+  induction rj as [|[r j] rj IH]; intros todo e; cbn [allocate_roles]; [discriminate|].
+  destruct j; try (intros H; inversion H; reflexivity).
+  destruct (allocate_list pids todo l) eqn:A; cbn [bind].
+  - apply IH.
+  - intros H; inversion H; subst. eapply allocate_list_err; eassumption.
+Qed.
+
+(* what is still to allocate only shrinks, and loses the persons just allocated *)
+Lemma allocate_list_todo pids l : forall todo todo',
+  allocate_list pids todo l = Ok todo' ->
+  (forall p, In p todo' -> In p todo) /\ (forall p, In (JStr p) l -> ~ In p todo').
+Proof.
+  induction l as [|j l IH]; intros todo todo'; cbn [allocate_list].
+  - intros H; inversion H; subst. split; [auto|]. intros p [].
+  - destruct j; try discriminate.
+    destruct (negb (mem_str s pids)); [discriminate|].
+    destruct (negb (mem_str s todo)); [discriminate|].
+    intros H. apply IH in H. destruct H as [H1 H2]. split.
+    + intros p Hp. apply H1 in Hp. apply filter_In in Hp. tauto.
+    + intros p [E|Hp]; [|apply H2; assumption].
+      inversion E; subst. intros Hin. apply H1 in Hin. apply filter_In in Hin.
+      destruct Hin as [_ Hin]. rewrite String.eqb_refl in Hin. discriminate.
+Qed.
+
+Lemma allocate_list_unknown_person pids l pid : forall todo,
+  In (JStr pid) l -> ~ In pid pids -> allocate_list pids todo l = Err ESituation.
+Proof.
+  induction l as [|j l IH]; intros todo Hin Hp; [destruct Hin|]. cbn [allocate_list].
+  destruct j; try reflexivity.
+  destruct (negb (mem_str s pids)) eqn:M; [reflexivity|].
+  destruct (negb (mem_str s todo)); [reflexivity|].
+  destruct Hin as [E|Hin]; [|apply IH; assumption].
+  inversion E; subst. apply negb_false_iff, mem_str_In in M. contradiction.
+Qed.
+
+Lemma allocate_list_not_to_allocate pids l pid : forall todo,
+  In (JStr pid) l -> ~ In pid todo -> allocate_list pids todo l = Err ESituation.
+Proof.
+  induction l as [|j l IH]; intros todo Hin Hp; [destruct Hin|]. cbn [allocate_list].
+  destruct j; try reflexivity.
+  destruct (negb (mem_str s pids)); [reflexivity|].
+  destruct (negb (mem_str s todo)) eqn:M; [reflexivity|].
+  destruct Hin as [E|Hin].
+  - inversion E; subst. apply negb_false_iff, mem_str_In in M. contradiction.
+  - apply IH; [assumption|]. intros I. apply filter_In in I. tauto.
+Qed.
+
+(* the same person twice in one list *)
+Lemma allocate_list_duplicate pids l1 l2 pid todo :
+  In (JStr pid) l1 -> allocate_list pids todo (l1 ++ JStr pid :: l2) = Err ESituation.
+Proof.
+  intros Hin.
+  assert (forall l1 todo, allocate_list pids todo (l1 ++ JStr pid :: l2)
+           = bind (allocate_list pids todo l1)
+                  (fun t => allocate_list pids t (JStr pid :: l2))) as App.
+  { clear. induction l1 as [|j l1 IH]; intros todo; cbn [app allocate_list]; [reflexivity|].
+    destruct j; try reflexivity.
+    destruct (negb (mem_str s pids)); [reflexivity|].
+    destruct (negb (mem_str s todo)); [reflexivity|]. apply IH. }
+  rewrite App. destruct (allocate_list pids todo l1) as [t|e] eqn:A; cbn [bind].
+  - apply allocate_list_not_to_allocate with (pid := pid); [left; reflexivity|].
+    eapply (proj2 (allocate_list_todo _ _ _ _ A)). assumption.
+  - apply allocate_list_err in A. subst. reflexivity.
+Qed.
+
+(* ... or in the lists of two roles, or of an earlier group ([todo] no longer has the person) *)
+Lemma allocate_roles_not_to_allocate pids rj r l pid : forall todo,
+  In (r, JArr l) rj -> In (JStr pid) l -> ~ In pid todo ->
+  allocate_roles pids todo rj = Err ESituation.
+Proof.
+  induction rj as [|[r0 j0] rj IH]; intros todo Hin Hl Hp; [destruct Hin|]. cbn [allocate_roles].
+  destruct Hin as [E|Hin].
+  - inversion E; subst. erewrite allocate_list_not_to_allocate; eauto.
+  - destruct j0; try reflexivity.
+    destruct (allocate_list pids todo l0) as [t|e] eqn:A; cbn [bind].
+    + eapply IH; eauto. intros I. apply Hp. eapply (proj1 (allocate_list_todo _ _ _ _ A)). assumption.
+    + apply allocate_list_err in A. subst. reflexivity.
+Qed.
+
+Lemma allocate_roles_unknown_person pids rj r l pid : forall todo,
+  In (r, JArr l) rj -> In (JStr pid) l -> ~ In pid pids ->
+  allocate_roles pids todo rj = Err ESituation.
+Proof.
+  induction rj as [|[r0 j0] rj IH]; intros todo Hin Hl Hp; [destruct Hin|]. cbn [allocate_roles].
+  destruct Hin as [E|Hin].
+  - inversion E; subst. erewrite allocate_list_unknown_person; eauto.
+  - destruct j0; try reflexivity.
+    destruct (allocate_list pids todo l0) as [t|e] eqn:A; cbn [bind].
+    + eapply IH; eauto.
+    + apply allocate_list_err in A. subst. reflexivity.
+Qed.
+
+Lemma assign_roles_err pids gidx rj : forall mr e,
+  assign_roles pids gidx rj mr = Err e -> e = ESituation.
+Proof.
+  induction rj as [|[r j] rj IH]; intros mr e; cbn [assign_roles]; [discriminate|].
+  destruct (r_max r) as [mx|]; [|apply IH].
+  destruct (mx <? _); [intros H; inversion H; reflexivity|apply IH].
+Qed.
+
+(* more holders of a role than its maximum *)
+Lemma assign_roles_too_many pids gidx rj r l mx : forall mr,
+  In (r, JArr l) rj -> r_max r = Some mx -> mx < Z.of_nat (List.length (person_ids_of l)) ->
+  assign_roles pids gidx rj mr = Err ESituation.
+Proof.
+  induction rj as [|[r0 j0] rj IH]; intros mr Hin Hm Hl; [destruct Hin|]. cbn [assign_roles].
+  destruct Hin as [E|Hin].
+  - inversion E; subst. rewrite Hm.
+    assert (mx <? Z.of_nat (List.length (person_ids_of l)) = true) as -> by (apply Z.ltb_lt; assumption).
+    reflexivity.
+  - destruct (r_max r0) as [mx0|]; [|eapply IH; eauto].
+    destruct (mx0 <? _); [reflexivity|eapply IH; eauto].
+Qed.
+
+(** the group whose role lists hold an unknown person, a person already allocated or too many
+    holders is refused as soon as it is read *)
+Lemma group_instance_rejected x s e pids eids gid fields rest st todo mr :
+  (allocate_roles pids todo (roles_json e fields) = Err ESituation
+   \/ (exists todo', allocate_roles pids todo (roles_json e fields) = Ok todo'
+       /\ forall gi, assign_roles pids gi (roles_json e fields) mr = Err ESituation)) ->
+  In gid eids ->
+  add_group_instances x s e pids eids ((gid, JObj fields) :: rest) st todo mr = Err ESituation.
+Proof.
+  intros H Hg. cbn [add_group_instances]. destruct H as [H|(todo' & H & H')].
+  - rewrite H. reflexivity.
+  - rewrite H. cbn [bind].
+    destruct (index_of gid eids) eqn:I.
+    + rewrite H'. reflexivity.
+    + exfalso. clear -Hg I. induction eids as [|a l IH]; [destruct Hg|].
+      cbn [index_of] in I. destruct (String.eqb a gid) eqn:Q; [discriminate|].
+      destruct Hg as [->|Hg]; [rewrite String.eqb_refl in Q; discriminate|].
+      destruct (index_of gid l); [discriminate|]. apply IH; [assumption|reflexivity].
+Qed.
